@@ -13,6 +13,7 @@ template size_t VPool::pvGetBufferSize1() const noexcept;
 template size_t VPool::pvGetBufferSize() const noexcept;
 template bool VPool::pvIsBufferBytesNear() const noexcept;
 template internal::Byte* VPool::pvNewBlock1();
+template internal::Byte* VPool::pvNewBlock();
 template void VPool::pvDeleteBlock1(internal::Byte*) noexcept;
 template void VPool::pvDeleteBlock(void*) noexcept;
 template internal::Byte* VPool::pvGetBlock(internal::Byte*, int8_t) const noexcept;
